@@ -257,19 +257,18 @@ class SizeMatcher(IterDataPipe):
         """Return an example dictionary with the resized image and `orig_size` key to represent the original shape of the source image."""
         for ex in self.source_datapipe:
             img_height, img_width = ex["image"].shape[-2:]
-            # pad images to max_height and max_width
-            if self.max_height is None:
-                self.max_height = img_height
-            if self.max_width is None:
-                self.max_width = img_width
-            pad_height = self.max_height - img_height
-            pad_width = self.max_width - img_width
+            # pad images to max_height and max_width (if not provided, the original image
+            # size is retained - per image, not the size of the first image of the stream)
+            max_height = self.max_height if self.max_height is not None else img_height
+            max_width = self.max_width if self.max_width is not None else img_width
+            pad_height = max_height - img_height
+            pad_width = max_width - img_width
             if pad_height < 0:
-                message = f"Max height {self.max_height} should be greater than the current image height: {img_height}"
+                message = f"Max height {max_height} should be greater than the current image height: {img_height}"
                 logger.error(message)
                 raise Exception(message)
             if pad_width < 0:
-                message = f"Max width {self.max_width} should be greater than the current image width: {img_width}"
+                message = f"Max width {max_width} should be greater than the current image width: {img_width}"
                 logger.error(message)
                 raise Exception(message)
             ex["image"] = F.pad(
